@@ -302,6 +302,17 @@ def check_C12(ctx):
                            'explanation': 'accepted by is_5321_local (2nd field 0) but rejected by is_822_local (1st field)'})
     # (3) whole addresses: ASCII modes agree on plain local parts; mode 6531 agrees or reports an IDN error; same domain verdict
     addrs = gens.addr_class(5 if ctx.thorough() else 4) + gens.addr_structured() + gens.addr_boundary()
+    # domains in every letter case: reserved names, listed TLDs of every class, near misses; with and without the root dot
+    def cases(d):
+        return {d, d.upper(), d.capitalize(), d.title(), bytes(c - 32 if 97 <= c <= 122 and i % 2 else c for i, c in enumerate(d))}
+    byclass = {}
+    for nme, l, t in ctx.snap.dump()['tld']:
+        byclass.setdefault(t, bytes.fromhex(nme))
+    cd = [d for d in gens.reserved_domains()[::4] if b'@' not in d] + [b'b.' + v for v in byclass.values()] + [b'example.com', b'a.example.org', b'example.net', b'examples.com', b'xexample.com', b'test', b'a.test', b'localhost', b'b.onion', b'a.invalid', b'mail.example']
+    for d in cd:
+        for v in cases(d):
+            addrs += [b'u@' + v, b'u@' + v + b'.']
+    addrs = sorted(set(addrs))
     orc = vlib.idn_oracle(gens.domains_of(addrs))
     elines = gens.e_lines(addrs, orc)
     corr(ctx, 'addresses', elines, lambda ln, o: ' '.join(o.split(' ')[:3]), nontrivial=nontriv, exhaustive=False, genuine=False,
@@ -629,6 +640,22 @@ def check_C11(ctx):
         if not (o.split(' ')[0].isdigit() and int(o.split(' ')[0]) >= 1) and nb < 3:
             nb += 1
             relation_violation(ctx, 'C11_same_tld_set', {'case': l, 'implementation': o, 'explanation': 'a domain listed in data/tld-domains.txt / data/raw.csv is not classified by the library'})
+    # (e) raw.csv (U-labels) names exactly the rows of punycode.csv / the table: convert every raw row with libidn2 and compare as multisets
+    orc_r = vlib.idn_oracle([r[0].encode() for r in raw])
+    conv = [(r[0], orc_r.get(r[0].encode(), (1, b''))) for r in raw]
+    from collections import Counter
+    named = Counter(a for _, (rc, a) in conv if rc == 0)
+    table = Counter(bytes.fromhex(n) for n, l, t in tab)
+    nb = 0
+    for a in sorted(set(named) | set(table)):
+        if named.get(a, 0) != table.get(a, 0) and nb < 3:
+            nb += 1
+            relation_violation(ctx, 'C11_same_tld_set', {'a_label': a.decode('latin-1'), 'times_named_by_raw_csv': named.get(a, 0), 'times_in_table': table.get(a, 0),
+                               'raw_rows': [u for u, (rc, x) in conv if x == a][:3],
+                               'explanation': 'data/raw.csv (and data/tld-domains.txt generated from it) does not name the same TLD set as the compiled table: this A-label is named %d time(s) but is in the table %d time(s)' % (named.get(a, 0), table.get(a, 0))})
+    for u, (rc, a) in conv:
+        if rc != 0 and nb < 4:
+            nb += 1; relation_violation(ctx, 'C11_same_tld_set', {'raw_row': u, 'idn_rc': rc, 'explanation': 'a domain of data/raw.csv has no A-label form'})
     # proof obligations failing with no mismatch found above is handled by finish()
     return finish(ctx, rule='T cases: every CSV row and table row looked up in the built library and compared with what punycode.csv dictates; the two Perl generators are run '
                   'unmodified (Text::CSV stand-in) on the shipped and on generated CSVs; U cases: every listed domain resolves', level='proof',
@@ -663,6 +690,19 @@ def check_C13(ctx):
         # replay: append the same address again at the end of the history (before the final x f), compare with a fresh object
         pairs[-1] = 'A ' + ' '.join(ops[:-2] + [es[-1], 'x', 'f'])
         fresh.append('A i r%d t%d m%d s %s x f' % (conf, t, mk, es[-1]))
+    # ordered pairs of addresses on one object against the second one on a fresh object: every class of outcome, and TLDs
+    # that are prefixes / extensions / neighbours of each other in the table (a remembered look-up would show here)
+    names = sorted(bytes.fromhex(n) for n, l, t in ctx.snap.dump()['tld'])
+    nset = set(names)
+    rel = [(a, a[:k]) for a in names for k in range(2, len(a)) if a[:k] in nset]
+    rel = rel[::max(1, len(rel) // 60)][:60] + [(names[i], names[i + 1]) for i in range(0, len(names) - 1, max(1, len(names) // 20))]
+    pool2 = [b'a@b.com', b'a@b.blog', b'a@b.bl', b'a@test', b'a@b.zzz', b'a@[1.2.3.4]', b'a@[IPv6:::1]', b'bad', b'a..b@c.de', 'я@почта.рф'.encode(), b'a@xn--a', b'a@b', b'"q"@b.org', b'a@B.COM', b'a@b.adac', b'a@example.com']
+    seqs = [(b'a@b.' + x, b'a@b.' + y) for x, y in rel] + [(b'a@b.' + y, b'a@b.' + x) for x, y in rel] + [(x, y) for x in pool2 for y in pool2]
+    orc2 = vlib.idn_oracle(gens.domains_of([a for p2 in seqs for a in p2]))
+    for x, y in seqs:
+        for m in ((3, 1) if not ctx.thorough() else (0, 1, 2, 3)):
+            pairs.append('A i r%d s %s %s x f' % (m, gens.enc_e(x, orc2), gens.enc_e(y, orc2)))
+            fresh.append('A i r%d s %s x f' % (m, gens.enc_e(y, orc2)))
     c_p, _ = vlib.run_both(lib, ctx.snap, pairs)
     c_f, _ = vlib.run_both(lib, ctx.snap, fresh)
     ctx.rep.add_cases('reused-vs-fresh', pairs, c_p, lambda ln, o: True, note='relation on implementation outputs: last eav_is_email + eav_errstr of a history == same call on a fresh object with the same settings')
@@ -1109,6 +1149,12 @@ def cli_files(rnd, n, big):
         if rnd.random() < 0.5 and data.endswith(b'\n'):
             data = data[:-1] if rnd.random() < 0.7 else data[:-1] + rnd.choice([b'\r', b' ', b'x@y.zz'])
         files.append(data)
+    # lines whose failure message comes from libidn2, from the TLD policy, from the syntax, and passes — in every order of three,
+    # so that a message left over from an earlier line shows
+    pool = [b'a@xn--a', b'a@xn--.de', b'a@\xff.c', b'a@b.an', b'a@b.adac', b'a@b.zzz', b'a@b.com', b'a@[1.2.3.4]', b'a@b', b'a..b@c.de', 'я@почта.рф'.encode()]
+    for tri in itertools.permutations(pool, 3):
+        if any(x[:5] in (b'a@xn-', b'a@\xff') for x in tri[:2]):
+            files.append(b'\n'.join(tri) + b'\n')
     files += [b'', b'\n', b'\n\n\n', b' \n', b'a@b.com', b'a@b.com\r', b'a@b.com\r\r\n', b'#\n', b'#', b' ', b'\x00\n', b'a@b.com\n\n \n#c\n good@xn--p1ai.com \n']
     return files
 
@@ -1251,6 +1297,9 @@ def check_C18(ctx):
         hl.append('A i s ' + ' '.join(seq) + ' s f')
         hl.append('A i ' + ' '.join(seq) + ' f i s f')
     hl = [h for h in hl if legal_history(h)]
+    # the TLD policy of each back end's own copy of the facade: every class code x masks (each single bit, each single bit missing, none, all) x modes
+    masks = [0, 2047] + [1 << b for b in range(11)] + [2047 ^ (1 << b) for b in range(11)] + [760, 6, 10, 24]
+    jl = ['J %d %d %d %d' % (m, mk, t, rc) for m in range(4) for mk in masks for t in (0, 1) for rc in list(range(-3, 10))]
     outs = {}
     for be in ('idn2', 'idn', 'idnkit'):
         lib = ctx.snap.lib(backend=be)
@@ -1259,11 +1308,12 @@ def check_C18(ctx):
         corr(ctx, be + ':is_utf8_domain', ul, first_fields(2), lib=lib, describe=desc, genuine=False, nontrivial=lambda ln, o: not o.startswith('-16'))
         corr(ctx, be + ':histories', hl, lambda ln, o: o, lib=lib, describe=desc, genuine=(lambda ln, a, b: ' K' in a and a.split(' K')[1] != b.split(' K')[-1]) if be == 'idnkit' else False,
              nontrivial=lambda ln, o: ' R' in o)
-        outs[be] = tuple(vlib.run_both(lib, ctx.snap, X)[0] for X in (el, ul, hl))
+        outs[be] = tuple(vlib.run_both(lib, ctx.snap, X)[0] for X in (el, ul, hl, jl))
+        corr(ctx, be + ':policy', jl, lambda ln, o: o, lib=lib, describe=desc, genuine=False, nontrivial=lambda ln, o: True, exhaustive=True)
     nb = 0
     strip = lambda o: o.split(' K')[0]
     for be in ('idn', 'idnkit'):
-        for X, a, b in ((el, outs['idn2'][0], outs[be][0]), (ul, outs['idn2'][1], outs[be][1]), (hl, outs['idn2'][2], outs[be][2])):
+        for X, a, b in ((el, outs['idn2'][0], outs[be][0]), (ul, outs['idn2'][1], outs[be][1]), (hl, outs['idn2'][2], outs[be][2]), (jl, outs['idn2'][3], outs[be][3])):
             for ln, x, y in zip(X, a, b):
                 if strip(x) != strip(y) and nb < 4:
                     nb += 1
